@@ -132,6 +132,14 @@ func mentions(p rtcp.Packet, ssrc uint32) bool {
 		return x.MediaSSRC == ssrc
 	case *rtcp.PictureLossIndication:
 		return x.MediaSSRC == ssrc
+	case *rtcp.TransportLayerCC:
+		return x.MediaSSRC == ssrc
+	case *rtcp.CCFeedbackReport:
+		for _, b := range x.ReportBlocks {
+			if b.MediaSSRC == ssrc {
+				return true
+			}
+		}
 	}
 	return false
 }
@@ -143,17 +151,19 @@ func HC11Unbind() {
 	k := vr.Param("kind", 5)
 	it := member(k)
 	about := 0
+	var lastAbout rtcp.Packet
 	it.BindRTCPWriter(interceptor.RTCPWriterFunc(func(pkts []rtcp.Packet, _ interceptor.Attributes) (int, error) {
 		for _, p := range pkts {
 			if mentions(p, 0x2222) {
 				about++
+				lastAbout = p
 			}
 		}
 		return 0, nil
 	}))
 	vr.Yield()
 	info := &interceptor.StreamInfo{SSRC: 0x2222, ClockRate: 90000, PayloadType: 96,
-		RTCPFeedback: []interceptor.RTCPFeedback{{Type: "nack"}, {Type: "nack", Parameter: "pli"}}}
+		RTCPFeedback: []interceptor.RTCPFeedback{{Type: "nack"}, {Type: "nack", Parameter: "pli"}, {Type: "ack", Parameter: "ccfb"}}}
 	seq := uint16(10)
 	local := k == 4
 	buf := make([]byte, 64)
@@ -190,6 +200,45 @@ func HC11Unbind() {
 		vr.Yield()
 	}
 	vr.Assert(about == 0, "after Unbind returns no further feedback or report about that SSRC is emitted")
+	// binding the same SSRC again starts from fresh state: one packet far away from the old numbers
+	lastAbout = nil
+	if local {
+		w := it.BindLocalStream(info, interceptor.RTPWriterFunc(func(h *rtp.Header, p []byte, _ interceptor.Attributes) (int, error) { return len(p), nil }))
+		_, _ = w.Write(&rtp.Header{Version: 2, SSRC: 0x2222, SequenceNumber: 30000, Timestamp: 77}, buf[:2], nil)
+	} else {
+		seq = 30000
+		rd := it.BindRemoteStream(info, interceptor.RTPReaderFunc(func(b []byte, at interceptor.Attributes) (int, interceptor.Attributes, error) {
+			pkt := [12]byte{0x80, 96, byte(seq >> 8), byte(seq), 0, 0, 0, 1, 0, 0, 0x22, 0x22}
+			copy(b, pkt[:])
+			return 12, at, nil
+		}))
+		_, _, _ = rd.Read(buf, nil)
+	}
+	vr.Yield()
+	now = now.Add(time.Second)
+	vr.FireTickers(now)
+	vr.Yield()
+	switch x := lastAbout.(type) {
+	case *rtcp.ReceiverReport:
+		vr.Cover("report after rebind")
+		for _, r := range x.Reports {
+			if r.SSRC == 0x2222 {
+				vr.Assert(r.TotalLost == 0 && r.FractionLost == 0 && r.LastSequenceNumber == 30000, "rebound stream reports from fresh state")
+			}
+		}
+	case *rtcp.SenderReport:
+		vr.Cover("report after rebind")
+		vr.Assert(x.PacketCount == 1 && x.OctetCount == 2, "rebound stream counts from fresh state")
+	case *rtcp.CCFeedbackReport:
+		vr.Cover("report after rebind")
+		for _, b := range x.ReportBlocks {
+			if b.MediaSSRC == 0x2222 {
+				vr.Assert(b.BeginSequence == 30000 && len(b.MetricBlocks) == 1, "rebound stream reports from fresh state")
+			}
+		}
+	case *rtcp.TransportLayerNack:
+		vr.Assert(false, "a rebound stream has lost nothing yet: no NACK from the old receive log")
+	}
 	_ = it.Close()
 	vr.Assert(vr.LiveThreads() == 0, "Close waits for the goroutines")
 }
